@@ -244,6 +244,29 @@ def order(rc):
     if not okg:
         rc.fail(m, m.node, "GaussianDistribution.marginalize must keep the same index list for variables, mean and covariance block", construct="marginalize blocks")
     rc.ob("GaussianDistribution.marginalize: one index list for variables, mean, covariance")
+    # canonical form: integrating x_j out of exp(-x'Kx/2 + h'x + g) gives  g' = g + 0.5 (|j| log 2pi - log|K_jj| + h_j' K_jj^{-1} h_j)   (Koller & Friedman 14.6)
+    from ..util import resolved_fn as _rf
+    cm = repo.func(CD, "CanonicalDistribution.marginalize")
+    cr = _rf(cm)
+    gs = [n for n in walk_no_nested(cr) if isinstance(n, ast.Assign) and isinstance(n.targets[0], ast.Attribute) and n.targets[0].attr == "g"]
+    if not gs:
+        raise AnalysisError("CanonicalDistribution.marginalize: g update not found")
+    quad = [c for c in ast.walk(gs[-1].value) if isinstance(c, ast.Call) and call_name(c) == "multi_dot" and c.args and isinstance(c.args[0], ast.List) and len(c.args[0].elts) == 3]
+    okq = False
+    for c in quad:
+        l, m, r = c.args[0].elts
+        hl = tm.is_(l, "__H.T")
+        if hl is not None and ast.dump(hl["__H"]) == ast.dump(r):
+            inv = isinstance(m, ast.Call) and call_name(m) == "inv"
+            rc.ob(f"CanonicalDistribution.marginalize: quadratic term of g uses {norm(m, 60)} (inverse of K_jj: {inv})")
+            if inv:
+                okq = True
+            else:
+                rc.fail(cm, gs[-1], "the constant of the marginal canonical form needs h_j' K_jj^{-1} h_j; the code multiplies with K_jj itself, so the marginal density is off by a constant "
+                        "factor (K' and h' are right)", construct="canonical marginalize quadratic term")
+                okq = True
+    if not okq:
+        raise AnalysisError("CanonicalDistribution.marginalize: quadratic term of g not recognised")
 
 
 def _parents(n):
@@ -343,6 +366,8 @@ def defuse(rc):
     _sh.defuse_rule(rc, _sh.anchor_files("C20"))
 
 MUTANTS = [
+    dict(kind="repair", name="canonical-marginalize-uses-inverse", file=CD, gone="C20.order",
+         old="                + np.linalg.multi_dot([h_j.T, K_j_j, h_j])", new="                + np.linalg.multi_dot([h_j.T, K_j_j_inv, h_j])"),
     dict(kind="break", name="marginalize-keeps-precision-block", file=GD, expect="C20.cache",
          old="        phi.covariance = phi.covariance[np.ix_(index_to_keep, index_to_keep)]\n        phi._precision_matrix = None", new="        phi.covariance = phi.covariance[np.ix_(index_to_keep, index_to_keep)]\n        if phi._precision_matrix is not None:\n            phi._precision_matrix = phi._precision_matrix[np.ix_(index_to_keep, index_to_keep)]"),
     dict(kind="break", name="reduce-forgets-precision", file=GD, expect="C20.cache",
